@@ -304,8 +304,12 @@ def c20(ctx, t0):
     res = []
     if want(ctx, 'module'):
         res.append(ctx.run_child('module', [hx, 'c20'], T(ctx, 600, 3000)))
+    if want(ctx, 'real-agent'):
+        ctx.build_agent()
+        res.append(ctx.run_child('real-agent', [hx, 'c20agent'], T(ctx, 400, 1200)))
     floors = {'expected_success': (counters(res, 'expected_success'), 50), 'expected_failure': (counters(res, 'expected_failure'), 150),
-              'requests_compared': (counters(res, 'requests_compared'), 100), 'class:reply-cut': (counters(res, 'class:reply-cut'), 20)}
+              'requests_compared': (counters(res, 'requests_compared'), 100), 'class:reply-cut': (counters(res, 'class:reply-cut'), 20),
+              'real_agent_cases': (counters(res, 'real_agent_cases'), 30), 'real_agent_store_accepts': (counters(res, 'real_agent_store_accepts'), 5)}
     return finish(ctx, 'exploration', res, COMMON_ASSUME + [
         'the module is compiled unmodified against ~40 lines of stub PAM headers (no libpam in the image); the stub runtime implements pam_get_user/get_item/set_item/prompt/vsyslog',
         'a clean ASan/UBSan run over the generated server behaviours is not a proof of memory safety (red-zone tools miss intra-object and far overflows)',
